@@ -79,4 +79,7 @@ class RenameColumnsOp (BaseOp):
     @staticmethod
     def validate_input_data(parameters):
         """ Additional validation required of operation parameters not performed by JSON schema validator. """
+        new_names = list(parameters["column_mapping"].values())
+        if len(set(new_names)) != len(new_names):
+            return ["column_mapping must not give two columns the same new name."]
         return []
